@@ -149,6 +149,26 @@ func (q *c11Sys) check24(bank uint32, off uint16) error {
 	return nil
 }
 
+// readOnly reads one address and, inside the console's layout, compares it with the designated cell.
+func (q *c11Sys) readOnly(a uint32) error {
+	var got byte
+	pe := rig.Safe(func() error { got = q.s.Bus.EaRead(a); return nil })
+	if !c11InT(a) {
+		return nil
+	}
+	class, _, gold, i, err := q.cell(a)
+	if err != nil || int(i) >= len(gold) {
+		return nil
+	}
+	if pe != nil {
+		return fmt.Errorf("EaRead($%06X) fails (%v) but the address is %s[$%X]", a, pe, class, i)
+	}
+	if got != gold[i] {
+		return fmt.Errorf("EaRead($%06X) = %02x but the mapper designates %s[$%X] = %02x", a, got, class, i, gold[i])
+	}
+	return nil
+}
+
 // checkOut performs a write at an address outside T; array changes are detected by the caller's scan.
 func (q *c11Sys) checkOut(a uint32) {
 	_ = rig.Safe(func() error { q.s.Bus.EaWrite(a, ^rig.Mix(q.seed, a)|1); return nil })
@@ -158,7 +178,9 @@ func (q *c11Sys) checkOut(a uint32) {
 func c11Check(c c11Case) error {
 	q := c11Fill(c.Seed)
 	q2 := c11Fill(c.Seed ^ 0x5A5A5A5A)
-	_ = rig.Safe(func() error { q2.s.Bus.EaWrite(c.Addr, q2.s.Bus.EaRead(c.Addr)); return nil })
+	if err := q2.readOnly(c.Addr); err != nil {
+		return fmt.Errorf("second System alive: %v", err)
+	}
 	if c11InT(c.Addr) {
 		if err := q.check24(c.Addr>>16, uint16(c.Addr)); err != nil {
 			return err
@@ -223,9 +245,15 @@ func TestC11(t *testing.T) {
 				for bank := uint32(0); bank < 256 && !failed; bank++ {
 					for off := uint32(0); off < 0x10000; off++ {
 						a := bank<<16 | off
-						if off&0x3 == 1 {
-							_ = rig.Safe(func() error { q2.s.Bus.EaRead(a); return nil })
-						} else if off&0x3 == 2 {
+						// the second System goes first in every other 16-byte block and in between elsewhere; its own
+						// answers are checked too (a read through one System's bus never sees another System's arrays)
+						if (off>>4&1 == 1 && off&0xF == 0) || off&0x7 == 5 {
+							if err := q2.readOnly(a); err != nil {
+								r.Violation("second-system", c11Case{seed, a}, fmt.Errorf("second System alive: %v", err))
+								failed = true
+								break
+							}
+						} else if off&0x3F == 0x22 {
 							_ = rig.Safe(func() error { q2.s.Bus.EaWrite(a, q2.s.Bus.EaRead(a)); return nil })
 						}
 						if c11InT(a) {
